@@ -41,7 +41,9 @@ def is_external(err_ty, body):
     return False
 
 
-SHORT_OK = {"map_err"}
+# combinators that cannot run a further sink operation after an Err: map_err / map only transform the value; and_then /
+# or_else(closure) are lazy - the closure runs only on the matching variant, and for and_then that is Ok
+SHORT_OK = {"map_err", "map", "and_then", "inspect", "inspect_err"}
 
 
 def rule_prefix(facts):
